@@ -93,6 +93,9 @@ def cold_start():
     import cotengra.interface as I
 
     _remember()
+    from sim import seams as _seams
+
+    _seams.hermetic_reset()
     mods = _mods()
     for (m, name), fn in _ORIG.items():
         setattr(mods[m], name, fn)
